@@ -1553,7 +1553,29 @@ func (w *World) namespaceUndeclared(P string) {
 		}
 		E := ssa.Value(fn.Params[0])
 		if pt, ok := E.Type().(*types.Pointer); !ok || !types.Identical(pt.Elem(), sf.T) {
-			return
+			// a method of a builder object: the element is the (single) read of its cursor field
+			cf, okB := builderCursorField(fn, sf)
+			if !okB {
+				return
+			}
+			var loads []ssa.Value
+			stored := false
+			allInstrs(fn, func(in ssa.Instruction) {
+				switch x := in.(type) {
+				case *ssa.UnOp:
+					if fa, ok := x.X.(*ssa.FieldAddr); ok && x.Op == token.MUL && fa.X == ssa.Value(fn.Params[0]) && fa.Field == cf {
+						loads = append(loads, x)
+					}
+				case *ssa.Store:
+					if fa, ok := x.Addr.(*ssa.FieldAddr); ok && fa.X == ssa.Value(fn.Params[0]) && fa.Field == cf {
+						stored = true
+					}
+				}
+			})
+			if len(loads) != 1 || stored {
+				return
+			}
+			E = loads[0]
 		}
 		// a store of a freshly made slice into E.namespaces
 		fresh := false
